@@ -14,6 +14,7 @@ import (
 
 	"golang.org/x/tools/go/ast/astutil"
 	ah "mvdan.cc/garble/internal/asthelper"
+	"mvdan.cc/garble/internal/verifhook"
 )
 
 // MinSize is the lower bound limit, of the size of string-like literals
@@ -239,6 +240,7 @@ func withPos(node ast.Node, pos token.Pos) ast.Node {
 
 func obfuscateString(or *obfRand, data string) *ast.CallExpr {
 	obf := or.pickObfuscator(len(data))
+	verifhook.Event("lit", "form", "string", "len", len(data), "obf", fmt.Sprintf("%T", obf))
 
 	// Generate junk bytes to to prepend and append to the data.
 	// This is to prevent the obfuscated string from being easily fingerprintable.
@@ -295,6 +297,7 @@ func obfuscateString(or *obfRand, data string) *ast.CallExpr {
 
 func obfuscateByteSlice(or *obfRand, isPointer bool, data []byte) *ast.CallExpr {
 	obf := or.pickObfuscator(len(data))
+	verifhook.Event("lit", "form", "slice", "ptr", isPointer, "len", len(data), "obf", fmt.Sprintf("%T", obf))
 
 	extKeys := randExtKeys(or.rnd)
 	block := obf.obfuscate(or.rnd, data, extKeys)
@@ -313,6 +316,7 @@ func obfuscateByteSlice(or *obfRand, isPointer bool, data []byte) *ast.CallExpr 
 
 func obfuscateByteArray(or *obfRand, isPointer bool, data []byte, length int64) *ast.CallExpr {
 	obf := or.pickObfuscator(len(data))
+	verifhook.Event("lit", "form", "array", "ptr", isPointer, "len", len(data), "obf", fmt.Sprintf("%T", obf))
 
 	extKeys := randExtKeys(or.rnd)
 	block := obf.obfuscate(or.rnd, data, extKeys)
